@@ -77,7 +77,7 @@ class Baton:
             else:
                 self.main.release()
 
-    def run(self, fns, join_timeout=240):
+    def run(self, fns, join_timeout=45):
         n = len(fns)
         self.sems = [threading.Semaphore(0) for _ in range(n)]
         self.done = [False] * n
